@@ -171,6 +171,45 @@ func (c08) Run(c *mon.Ctx, i int) {
 			c.Count("trailing-data-left-untouched", 1)
 		}
 	}
+	// Reset in the middle of the file must restore the default (multistream) mode:
+	// first member alone, then Reset on the same source, then the rest as one stream
+	if n >= 2 && len(T) == 0 {
+		src := bufioOf(bytes.NewReader(all), bsz)
+		var problem string
+		pv, st := mon.Safe(func() {
+			z, e := c.API.NewGzipReader(src)
+			if e != nil {
+				problem = fmt.Sprintf("NewReader: %v", e)
+				return
+			}
+			z.Multistream(false)
+			got, err, _ := readAllSizes(z, gen.ReadSizes(r, style), len(payloads[0])+1<<20)
+			if err != io.EOF || !bytes.Equal(got, payloads[0]) {
+				problem = fmt.Sprintf("first member: %d bytes then %v", len(got), err)
+				return
+			}
+			if e := z.Reset(src); e != nil {
+				problem = fmt.Sprintf("Reset before member 1: %v", e)
+				return
+			}
+			rest := bytes.Join(payloads[1:], nil)
+			got, err, _ = readAllSizes(z, gen.ReadSizes(r, style), len(rest)+1<<20)
+			if err != io.EOF || !bytes.Equal(got, rest) {
+				problem = fmt.Sprintf("after Multistream(false), one member and Reset on the same source, the Reader returned %d bytes then %v; the remaining %d members hold %d bytes (a freshly Reset Reader is in multistream mode)", len(got), err, n-1, len(rest))
+			}
+		})
+		c.Eval(1)
+		if pv != nil {
+			desc["stack"] = st
+			c.Violate("panic|reset-to-default", fmt.Sprint(pv), desc)
+			return
+		}
+		if problem != "" {
+			c.Violate("reset-does-not-restore-multistream|bufio="+bufClass(bsz), problem, desc)
+			return
+		}
+		c.Count("reset-restores-default-mode", 1)
+	}
 	c.Count(fmt.Sprintf("members-%d", n), 1)
 	if n >= 2 {
 		c.Nontrivial(all, T, bsz, style)
